@@ -36,7 +36,10 @@ def main():
       loader = load_pytd.create_loader(opts)
     try:
       ret, pyi = pio.generate_pyi(req["src"], opts, loader)
-      errs = [[e.line or 0, e.name, sha(e.message or "")]
+      # identity of a reported error = what pytype itself prints and de-duplicates on: position
+      # (line, column, method), name, message, details and the traceback of the call site
+      errs = [[e.line or 0, e.name,
+               sha(repr(e.get_unique_representation()) + "\n" + (e.traceback or ""))]
               for e in ret.context.errorlog.unique_sorted_errors()]
       raw = [[e.line or 0, e.name, sha(e.message or "")] for e in ret.context.errorlog]
       try:
